@@ -118,11 +118,14 @@ pub fn run_async(b: &mut BuiltAsync, sc: &Scenario, spec: &StratSpec, seed: u64,
         restore_world(&ctx, ad.world_mut(), &b.snapshot);
     }
     reset_keep_setup(&ctx);
-    // faults (rendezvous only; panics in a spawned job abort the process by rayon's design)
+    // faults: rendezvous; a panic inside a background job (a pool without a panic handler would
+    // abort the process: the stand-in pool behaves like one that has a handler); a panic inside
+    // a system's setup during a Setup operation
+    ctx.setup_panic_sid.store(usize::MAX, Ordering::SeqCst);
     {
         let mut d = ctx.directives.lock().unwrap();
         for f in &sc.faults {
-            if f.sid < d.len() && f.kind == FaultKind::Rendezvous {
+            if f.sid < d.len() && matches!(f.kind, FaultKind::Rendezvous | FaultKind::PanicBefore | FaultKind::PanicMid | FaultKind::PanicAfter) {
                 d[f.sid].push(Directive { call: f.call, kind: f.kind, arg: f.arg });
             }
         }
@@ -196,7 +199,21 @@ pub fn run_async(b: &mut BuiltAsync, sc: &Scenario, spec: &StratSpec, seed: u64,
                 AOp::WorldMut => detsim::detached("async-world-mut", cond, mk_at_return(None), || {
                     let _ = ad.world_mut();
                 }),
-                AOp::Setup => detsim::detached("async-setup", cond, mk_at_return(None), || ad.setup()),
+                AOp::Setup => {
+                    let nth = sc.aops[..oi].iter().filter(|o| **o == AOp::Setup).count();
+                    let armed = sc.faults.iter().find(|f| f.kind == FaultKind::SetupPanic && f.call == nth).map(|f| f.sid);
+                    if let Some(sid) = armed {
+                        ctx.setup_panic_sid.store(sid, Ordering::SeqCst);
+                    }
+                    let r = std::panic::catch_unwind(std::panic::AssertUnwindSafe(|| detsim::detached("async-setup", cond, mk_at_return(None), || ad.setup())));
+                    ctx.setup_panic_sid.store(usize::MAX, Ordering::SeqCst);
+                    if let Err(p) = r {
+                        if armed.is_none() || !crate::util::payload_string(&p).contains("HPANIC") {
+                            std::panic::resume_unwind(p);
+                        }
+                        // the injected panic: caught, the dispatcher is used on
+                    }
+                }
             }
             ctx.emit(Ev::CallEnd, usize::MAX, oi as u64);
             let end_seq = ctx.events.lock().unwrap().len() as u64;
@@ -340,7 +357,9 @@ pub fn check_async(sc: &Scenario, b: &BuiltAsync, ao: &AsyncOut, out: &mut Vec<V
         }
     }
     // no enter of dispatch k+1 before the last exit of dispatch k; each dispatch runs every
-    // ordinary system exactly once
+    // ordinary system exactly once (a dispatch in which a panic was injected is not complete,
+    // and nothing after it can be: there the accessor oracles above are what counts)
+    let job_panic = sc.faults.iter().any(|f| matches!(f.kind, FaultKind::PanicBefore | FaultKind::PanicMid | FaultKind::PanicAfter));
     let h = history(ev, infos);
     let mut insts: Vec<u64> = h.occs.iter().filter(|o| infos[o.sid].parent.is_none() && o.kind != Kind::Tl).map(|o| o.inst).collect();
     insts.sort();
@@ -353,7 +372,7 @@ pub fn check_async(sc: &Scenario, b: &BuiltAsync, ao: &AsyncOut, out: &mut Vec<V
             out.push(vio("C15", "dispatches-overlap", format!("a system of dispatch instance {} entered at {} before the previous dispatch had ended at {}", inst, first, last_end)));
         }
         last_end = last_end.max(occs.iter().map(|o| o.end).max().unwrap_or(0));
-        for i in infos.iter().filter(|i| i.parent.is_none() && i.kind != Kind::Tl) {
+        for i in infos.iter().filter(|i| i.parent.is_none() && i.kind != Kind::Tl && !job_panic) {
             let n = occs.iter().filter(|o| o.sid == i.sid).count();
             if n != 1 {
                 let m = format!("async dispatch instance {}: system {} ran {} time(s)", inst, i.sid, n);
@@ -363,12 +382,12 @@ pub fn check_async(sc: &Scenario, b: &BuiltAsync, ao: &AsyncOut, out: &mut Vec<V
         }
     }
     let ndisp = sc.aops.iter().filter(|o| **o == AOp::Dispatch).count() as u64;
-    if insts.len() as u64 != ndisp && n_ord > 0 {
+    if insts.len() as u64 != ndisp && n_ord > 0 && !job_panic {
         let m = format!("{} dispatch operations were issued, systems ran in {} dispatch instances", ndisp, insts.len());
         out.push(vio("C15", "not-exactly-once", m.clone()));
         out.push(vio("C04", "dispatch-count", m));
     }
-    for i in infos.iter().filter(|i| i.parent.is_none() && i.kind != Kind::Tl) {
+    for i in infos.iter().filter(|i| i.parent.is_none() && i.kind != Kind::Tl && !job_panic) {
         if ao.runs[i.sid] != ndisp {
             let m = format!("system {} ran {} time(s) in {} asynchronous dispatches", i.sid, ao.runs[i.sid], ndisp);
             out.push(vio("C15", "not-exactly-once", m.clone()));
@@ -377,7 +396,10 @@ pub fn check_async(sc: &Scenario, b: &BuiltAsync, ao: &AsyncOut, out: &mut Vec<V
     }
     // setup reaches everything, also when issued while a dispatch is in flight (C13)
     let nsetup = sc.aops.iter().filter(|o| **o == AOp::Setup).count() as u64;
-    for i in infos.iter().filter(|i| i.kind != Kind::Batch) {
+    // (a Setup operation that was left by an injected panic has not reached everybody; a run
+    // that ended early - the job died - has not performed every operation)
+    let cut_short = sc.faults.iter().any(|f| f.kind == FaultKind::SetupPanic) || ao.obs.len() < sc.aops.len();
+    for i in infos.iter().filter(|i| i.kind != Kind::Batch && !cut_short) {
         if ao.setups[i.sid] != nsetup {
             let m = format!("system {} ({:?}, batch depth {}) had its setup called {} time(s) by {} call(s) of AsyncDispatcher::setup", i.sid, i.kind, i.depth, ao.setups[i.sid], nsetup);
             out.push(vio("C13", if ao.setups[i.sid] < nsetup { "setup-missed" } else { "setup-twice" }, m));
@@ -542,7 +564,8 @@ pub fn eval_async_on(b: &mut BuiltAsync, sc: &Scenario, strat: &StratSpec, rs: u
         o => out.push(vio("HARNESS", "outcome", format!("{:?}", o))),
     }
     for e in &ao.ro.escaped {
-        if !crate::util::is_borrow_panic(e) && !e.contains("Sender dropped") {
+        let injected = sc.faults.iter().any(|f| matches!(f.kind, FaultKind::PanicBefore | FaultKind::PanicMid | FaultKind::PanicAfter));
+        if !crate::util::is_borrow_panic(e) && !e.contains("Sender dropped") && !(injected && e.contains("HPANIC sid=")) {
             out.push(vio("HARNESS", "escaped-panic", e.clone()));
         }
     }
